@@ -228,4 +228,20 @@ example : ¬ Conforms witNT (.node ⟨"statement", true⟩ false [] [.node ⟨"v
     have := (conforms_iff witNT _).2 h
     revert this; decide
 
+/-- WITNESS (finding `aliased-inline-multistep`, corpus grammar c16_msinline, input `rec < a > ;`): the
+real node-types.json declares field `entry` of `msrec_stmt` as one non-multiple `thing`; the real tree
+has three `thing` children under `entry` (every step of the inlined production got the alias and the
+field). -/
+def msWitNT : NodeTypes :=
+  [ { ty := ⟨"msrec_stmt", true⟩, fields := [("entry", ⟨true, false, [⟨"thing", true⟩]⟩)], children := none, subtypes := none },
+    { ty := ⟨"thing", true⟩, fields := [], children := some ⟨false, true, [⟨"word", true⟩]⟩, subtypes := none },
+    { ty := ⟨"rec", false⟩, fields := [], children := none, subtypes := none },
+    { ty := ⟨";", false⟩, fields := [], children := none, subtypes := none } ]
+example : ¬ Conforms msWitNT (.node ⟨"msrec_stmt", true⟩ false []
+    [.node ⟨"rec", false⟩ false [] [], .node ⟨"thing", true⟩ false ["entry"] [], .node ⟨"thing", true⟩ false ["entry"] [],
+     .node ⟨"thing", true⟩ false ["entry"] [], .node ⟨";", false⟩ false [] []]) :=
+  fun h => by
+    have := (conforms_iff msWitNT _).2 h
+    revert this; decide
+
 end TsVerif.C16
